@@ -42,7 +42,12 @@ impl RtpsStatefulReader {
             .iter_mut()
             .find(|wp| wp.remote_writer_guid() == writer_proxy.remote_writer_guid)
         {
-            *wp = rtps_writer_proxy;
+            // The writer is announced again (e.g. after a QoS update): what has been received from it stays
+            // received, only where to reach it may have changed
+            wp.set_locators(
+                &writer_proxy.unicast_locator_list,
+                &writer_proxy.multicast_locator_list,
+            );
         } else {
             self.matched_writers.push(rtps_writer_proxy);
         }
